@@ -204,6 +204,10 @@ func c01(run *ev.Run) int {
 		srv := servers[j.v]
 		opts := append(svc.ProtoOpts(j.proto, j.codec), v.copts...)
 		cs := srv.Clients(j.http2, opts...)
+		// every third job closes each stream twice (defer stream.Close() plus an
+		// explicit Close); the calls that follow on the same client are the ones
+		// that would show it
+		cs.CloseTwice = ji%3 == 1
 		cfg := fmt.Sprintf("%s/h2=%v/%s/%s/%s", v.name, j.http2, j.proto, j.codec, j.kind)
 		r := run.Rand("c01/" + cfg)
 		for si, spec := range seqs {
